@@ -205,16 +205,27 @@ func (s *SourceControl) runLaterIfActive(f func()) error {
 	if !s.isSourceActive {
 		return fmt.Errorf("no source is active")
 	}
+	stopped, err := s.queueRequest(s.ActiveSource, f)
+	if stopped {
+		s.handlePossibleStoppedSource()
+	}
+	return err
+}
+
+// queueRequest hands the closure f to the core loop of the running source src and returns the
+// error that f sends on s.queuedResults. If src stops before its core loop accepts f, it returns
+// stopped=true and an error. It uses only the channels of s, not the state that belongs to
+// the RPC-serving goroutine, so it is safe to call from any goroutine.
+func (s *SourceControl) queueRequest(src DataSource, f func()) (stopped bool, err error) {
 	// The core loop is the only receiver of queuedRequests, and it ends by itself when the
 	// source reports an error or times out. Don't wait forever for a core loop that is gone.
 	for {
 		select {
 		case s.queuedRequests <- f:
-			return <-s.queuedResults
+			return false, <-s.queuedResults
 		case <-time.After(100 * time.Millisecond):
-			if !s.ActiveSource.Running() {
-				s.handlePossibleStoppedSource()
-				return fmt.Errorf("no source is active")
+			if !src.Running() {
+				return true, fmt.Errorf("no source is active")
 			}
 		}
 	}
@@ -517,8 +528,14 @@ func (s *SourceControl) SetExperimentStateLabel(config *StateLabelConfig, reply 
 		*reply = (err == nil)
 		return err
 	}
+	// This goroutine outlives the request, so it must not use s.isSourceActive, s.status or
+	// s.ActiveSource, which later requests read and change. Take what it needs now.
+	active, src := s.isSourceActive, s.ActiveSource
 	f2 := func() {
-		err := s.runLaterIfActive(f)
+		err := fmt.Errorf("no source is active")
+		if active {
+			_, err = s.queueRequest(src, f)
+		}
 		if err != nil {
 			// panic here since this error could never be returned
 			panic(fmt.Sprintf("error with WaitForError == false in SetExperimentStateLabel. %s", spew.Sdump(err)))
